@@ -399,6 +399,9 @@ func (p *LinkADRAnsPayload) UnmarshalBinary(data []byte) error {
 	if len(data) != 1 {
 		return errors.New("lorawan: 1 byte of data is expected")
 	}
+	// reset the fields (in case p has been used before)
+	*p = LinkADRAnsPayload{}
+
 	if data[0]&(1<<0) > 0 {
 		p.ChannelMaskACK = true
 	}
